@@ -124,6 +124,16 @@ impl Runner<'_> {
         }
     }
 
+    fn note_backup(&mut self, r: &JobResult) {
+        if let Some((sn, src)) = &r.1 {
+            if !sn.id.is_null() {
+                let name = self.w.nm.name('s', &sn.id);
+                _ = self.w.expected.insert(name, expected_of(src));
+                self.w.snaps.push(sn.clone());
+            }
+        }
+    }
+
     fn begin(&mut self, cmd: &str, extra: Value) -> u32 {
         self.nproc += 1;
         // a command issued through a pre-loaded handle logs its operations under that handle's number
@@ -359,6 +369,78 @@ impl Runner<'_> {
                 let res = scn::guard(|| scn::open(&h, &key)?.prune_plan(&po).map(|_| ()));
                 self.end(p, &res);
             }
+            "conc" => {
+                // two commands on the same store: A runs up to its gate-th back-end operation, then B runs
+                // (completely, or up to its own gate while A finishes), then the parked one resumes
+                let (sa, sb) = (st["a"].clone(), st["b"].clone());
+                let gate = st["gate"].as_u64().unwrap() as usize;
+                let bgate = st.get("bgate").and_then(Value::as_u64).map(|x| x as usize);
+                let b_is_prune = sb["cmd"] == "prune";
+                let a_is_prune = sa["cmd"] == "prune";
+                let info = |s: &Value, overlaps_prune: bool| -> Value {
+                    if s["cmd"] == "prune" {
+                        let o = s.get("opts").cloned().unwrap_or(json!({}));
+                        json!({"instant": o.get("instant").and_then(Value::as_bool).unwrap_or(false), "early": false,
+                               "kd": o.get("keep_delete").and_then(Value::as_i64).unwrap_or(0), "opts": o})
+                    } else {
+                        json!({"stale": overlaps_prune})
+                    }
+                };
+                let pa = self.begin(sa["cmd"].as_str().unwrap(), info(&sa, b_is_prune));
+                let ha = self.w.store.handle(pa).gate_at(gate);
+                let ctl_a = ha.ctl.clone();
+                let done_a = std::sync::Arc::new(std::sync::atomic::AtomicBool::new(false));
+                let (seed, chunk) = (self.seed, self.chunk);
+                let ta = 1_000_000 + i64::from(pa) * 60;
+                let key_a = key.clone();
+                let da = done_a.clone();
+                let sa2 = sa.clone();
+                let th_a = std::thread::spawn(move || {
+                    let r = run_job(&sa2, &key_a, &ha, seed, chunk, ta);
+                    da.store(true, std::sync::atomic::Ordering::SeqCst);
+                    r
+                });
+                let parked_a = ctl_a.gate.wait_parked(&done_a);
+                self.w.flush_ops(self.out, false);
+                self.w.emit(self.out, json!({"e":"note","what":"A parked","parked":parked_a,"gate":gate}));
+                let pb = self.begin(sb["cmd"].as_str().unwrap(), info(&sb, a_is_prune));
+                let mut hb = self.w.store.handle(pb);
+                if let Some(j) = bgate {
+                    hb = hb.gate_at(j);
+                }
+                let ctl_b = hb.ctl.clone();
+                let tb = 1_000_000 + i64::from(pb) * 60;
+                let (rb, ra);
+                if bgate.is_some() {
+                    let done_b = std::sync::Arc::new(std::sync::atomic::AtomicBool::new(false));
+                    let db = done_b.clone();
+                    let key_b = key.clone();
+                    let sb2 = sb.clone();
+                    let th_b = std::thread::spawn(move || {
+                        let r = run_job(&sb2, &key_b, &hb, seed, chunk, tb);
+                        db.store(true, std::sync::atomic::Ordering::SeqCst);
+                        r
+                    });
+                    _ = ctl_b.gate.wait_parked(&done_b);
+                    self.w.flush_ops(self.out, false);
+                    ctl_a.gate.release();
+                    ra = th_a.join().unwrap();
+                    self.note_backup(&ra);
+                    self.end(pa, &ra.0);
+                    ctl_b.gate.release();
+                    rb = th_b.join().unwrap();
+                    self.note_backup(&rb);
+                    self.end(pb, &rb.0);
+                } else {
+                    rb = run_job(&sb, &key, &hb, seed, chunk, tb);
+                    self.note_backup(&rb);
+                    self.end(pb, &rb.0);
+                    ctl_a.gate.release();
+                    ra = th_a.join().unwrap();
+                    self.note_backup(&ra);
+                    self.end(pa, &ra.0);
+                }
+            }
             "check" => {
                 let p = self.begin("check", json!({}));
                 let h = self.w.store.handle(p);
@@ -374,6 +456,36 @@ impl Runner<'_> {
             }
             other => panic!("unknown command {other}"),
         }
+    }
+}
+
+type JobResult = (Outcome<()>, Option<(rustic_core::repofile::SnapshotFile, MemSource)>);
+
+/// one command (backup or prune) through the given handle; usable from a worker thread
+pub fn run_job(st: &Value, key: &MasterKey, h: &crate::store::Handle, seed: u64, chunk: usize, t: i64) -> JobResult {
+    match st["cmd"].as_str().unwrap() {
+        "backup" => {
+            let src = source_from(&st["files"], seed, chunk);
+            let res = scn::guard(|| {
+                let r = scn::open(h, key)?.to_indexed_ids()?;
+                scn::backup_mem(&r, &src, &BackupOptions::default(), scn::snap_at(t))
+            });
+            match res {
+                Outcome::Ok(sn) => (Outcome::Ok(()), Some((sn, src))),
+                Outcome::Err(e) => (Outcome::Err(e), None),
+                Outcome::Panic(e) => (Outcome::Panic(e), None),
+            }
+        }
+        "prune" => {
+            let po = prune_opts(&st.get("opts").cloned().unwrap_or(json!({})));
+            let res = scn::guard(|| {
+                let r = scn::open(h, key)?;
+                let plan = r.prune_plan(&po)?;
+                r.prune(&po, plan)
+            });
+            (res, None)
+        }
+        other => panic!("conc: unsupported command {other}"),
     }
 }
 
